@@ -96,6 +96,21 @@ func c01Scenarios(tier string) []*Scenario {
 			scs = append(scs, sc)
 		}
 	}
+	// process_healthy on a dependency that has no readiness probe at all, or a liveness probe only (both load in a
+	// default, non-strict project): it never becomes healthy, the dependent never launches
+	{
+		add([]GNode{{Name: "a", Beh: "daemon"}, leaf("b", map[string]string{"a": cHealthy})})
+		lv := GNode{Name: "a", Beh: "daemon", Extra: []string{"liveness_probe:", "  exec:", "    command: \"probe-live-a\"", "  period_seconds: 1"}}
+		add([]GNode{lv, leaf("b", map[string]string{"a": cHealthy})})
+		sc := scs[len(scs)-1]
+		sc.ID += "-liveness-only"
+		if sc.Aux == nil {
+			sc.Aux = map[string][]string{}
+		}
+		sc.Aux["probe-live-a"] = []string{"ok"}
+		sc.Horizon = 6 * time.Second
+		sc.TickBudget = 2
+	}
 	// a dependency that takes its time to go down (3 s after the signal) and gets a second request while it
 	// is Terminating: its dependents wait until the command has really gone
 	for _, c := range []string{cCompleted, cSucc} {
